@@ -112,7 +112,7 @@ def run(tier):
     common.write_ndjson(req, batches)
     rc, txt, _ = common.run([h, "ops", req, out], timeout=900)
     if rc != 0:
-        raise Infra("harness ops failed: " + txt[-2000:])
+        raise common.harness_failure(txt)
     res = {x["id"]: x for x in common.read_ndjson(out)}
     rejected = 0
     for i, (s, tname, cols, sql) in enumerate(plan):
